@@ -75,6 +75,14 @@ func (p *PcClient) getProcessInfo(name string) (*types.ProcessConfig, error) {
 		return nil, err
 	}
 	defer resp.Body.Close()
+	if resp.StatusCode != http.StatusOK {
+		var respErr pcError
+		if err = json.NewDecoder(resp.Body).Decode(&respErr); err != nil {
+			log.Err(err).Msg("failed to decode err process info")
+			return nil, err
+		}
+		return nil, errors.New(respErr.Error)
+	}
 	var sResp types.ProcessConfig
 
 	//Decode the data
@@ -93,6 +101,14 @@ func (p *PcClient) getProcessPorts(name string) (*types.ProcessPorts, error) {
 		return nil, err
 	}
 	defer resp.Body.Close()
+	if resp.StatusCode != http.StatusOK {
+		var respErr pcError
+		if err = json.NewDecoder(resp.Body).Decode(&respErr); err != nil {
+			log.Err(err).Msg("failed to decode err process ports")
+			return nil, err
+		}
+		return nil, errors.New(respErr.Error)
+	}
 	var sResp types.ProcessPorts
 
 	//Decode the data
